@@ -298,6 +298,122 @@ impl Run {
     }
 }
 
+
+// ---------------------------------------------------------------------------------------------
+// one update_defined_name over the full product {name kept, changed} x {scope kept, global->local,
+// local->global, local->other local} x {formula kept, changed}
+// ---------------------------------------------------------------------------------------------
+const RS_SHEETS: [&str; 3] = ["Sheet1", "Data", "Aux"];
+/// using cells: (sheet, row, text) in column H — on the name's own sheet and on others; `dup` exists globally AND locally on Sheet1
+const RS_CELLS: [(u32, i32, &str); 12] = [
+    (0, 1, "=rate2+1"), (0, 2, "=loc1+1"), (0, 3, "=RATE2*2"), (0, 4, "=dup+1"), (0, 5, "=SUM(rate2,loc1,dup)"), (0, 6, "=LET(v,rate2,v+loc1)"),
+    (1, 1, "=rate2+1"), (1, 2, "=loc1+1"), (1, 3, "=dup+1"), (1, 4, "=dloc*2+rate2"), (2, 1, "=rate2&dup"), (2, 2, "=loc1"),
+];
+fn rs_names() -> Vec<(&'static str, Option<u32>, &'static str)> {
+    vec![("rate2", None, "Sheet1!$A$1"), ("loc1", Some(0), "Sheet1!$A$2"), ("dup", None, "Sheet1!$B$1"), ("dup", Some(0), "Sheet1!$B$2"), ("dloc", Some(1), "Data!$A$1")]
+}
+fn rs_build(names: &[(String, Option<u32>, String)], cells: &[(u32, i32, String)]) -> Option<Model<'static>> {
+    let mut m = Model::new_empty("rescope", "en", "UTC", "en").ok()?;
+    m.new_sheet(); m.new_sheet();
+    let _ = m.rename_sheet_by_index(1, "Data"); let _ = m.rename_sheet_by_index(2, "Aux");
+    for r in 1..=3 { for c in 1..=2 { for sh in 0..3u32 { let _ = m.set_user_input(sh, r, c, format!("{}", (sh as i32 + 1) * 100 + r * 10 + c)); } } }
+    for (n, sc, f) in names { m.new_defined_name(n, *sc, f).ok()?; }
+    for (sh, r, t) in cells { let _ = m.set_user_input(*sh, *r, 8, t.clone()); }
+    m.evaluate();
+    Some(m)
+}
+fn rs_texts(m: &Model) -> Vec<String> {
+    RS_CELLS.iter().map(|(sh, r, _)| {
+        let ws = &m.workbook.worksheets[*sh as usize];
+        ws.cell(*r, 8).and_then(|c| c.get_formula()).and_then(|f| ws.shared_formulas.get(f as usize).cloned()).unwrap_or_else(|| "<no formula>".into())
+    }).collect()
+}
+fn rs_values(m: &Model) -> Vec<String> { RS_CELLS.iter().map(|(sh, r, _)| value(m, RS_SHEETS[*sh as usize], *r, 8)).collect() }
+
+impl Run {
+    fn rescope_product(&mut self) {
+        use ironcalc_base::expressions::lexer::LexerMode;
+        let _ = LexerMode::A1;
+        let base_names: Vec<(String, Option<u32>, String)> = rs_names().into_iter().map(|(n, s, f)| (n.to_string(), s, f.to_string())).collect();
+        let base_cells: Vec<(u32, i32, String)> = RS_CELLS.iter().map(|(s, r, t)| (*s, *r, t.to_string())).collect();
+        let (en_g, en_l) = (get_language("en").unwrap(), get_locale("en").unwrap());
+        // the name operated on: a global one, a local one, the global and the local of a shadowing pair
+        for (target, tscope) in [("rate2", None), ("loc1", Some(0u32)), ("dup", None), ("dup", Some(0u32)), ("dloc", Some(1u32))] {
+            for new_name in [target, "tax", "TAX_2"] {
+                for new_scope in [None, Some(0u32), Some(1u32), Some(2u32)] {
+                    for new_formula in ["<same>", "Aux!$A$3"] {
+                        *self.dist.entry("rescope_product".into()).or_insert(0) += 1;
+                        let mut m = match rs_build(&base_names, &base_cells) { Some(m) => m, None => continue };
+                        let old_formula = base_names.iter().find(|(n, s, _)| n == target && *s == tscope).unwrap().2.clone();
+                        let fml = if new_formula == "<same>" { old_formula.clone() } else { new_formula.to_string() };
+                        let replay = json!({"name": target, "scope": tscope, "new_name": new_name, "new_scope": new_scope, "new_formula": fml});
+                        let before_texts = rs_texts(&m);
+                        let before_trees: Vec<Option<ironcalc_base::expressions::parser::Node>> = RS_CELLS.iter().map(|(sh, r, _)| {
+                            let ws = &m.workbook.worksheets[*sh as usize];
+                            ws.cell(*r, 8).and_then(|c| c.get_formula()).map(|f| m.parsed_formulas[*sh as usize][f as usize].0.clone()) }).collect();
+                        let env_before = m.workbook.get_defined_names_with_scope();
+                        let res = catch_unwind(AssertUnwindSafe(|| m.update_defined_name(target, tscope, new_name, new_scope, &fml)));
+                        let res = match res { Ok(r) => r, Err(_) => { self.or.fail("operation_panics", replay, "update_defined_name panics".into()); continue; } };
+                        if res.is_err() { continue; }          // the new (name, scope) exists already
+                        m.evaluate();
+                        let after_texts = rs_texts(&m);
+                        // ---- expectation, from the trees before: a formula is rewritten where it resolved to the OLD (name, scope), iff the name changes
+                        let name_changed = new_name != target;
+                        let mut exp_cells: Vec<(u32, i32, String)> = vec![];
+                        let mut ok_texts = true;
+                        for (i, (sh, r, typed)) in RS_CELLS.iter().enumerate() {
+                            let uses_old = before_trees[i].as_ref().map(|t| treeutil::contains(t, &|n| matches!(n, ironcalc_base::expressions::parser::Node::DefinedNameKind((nm, sc, _)) if nm.to_lowercase() == target.to_lowercase() && *sc == tscope))).unwrap_or(false);
+                            // the typed text with the old name replaced where this cell resolved to the old (name, scope)
+                            let exp_typed = if name_changed && uses_old { replace_ident(typed, target, new_name) } else { typed.to_string() };
+                            exp_cells.push((*sh, *r, exp_typed.clone()));
+                            let rewritten = after_texts[i] != before_texts[i];
+                            self.or.checked += 1;
+                            if rewritten != (name_changed && uses_old) { ok_texts = false; }
+                            // tie: the model's update on the stored text before = the stored text after
+                            let line = format!("S {} {} {} {} {} 3 {} {} {} {} {} | {}", wire(target), tscope.map(|x| x as i64).unwrap_or(-1), wire(new_name), new_scope.map(|x| x as i64).unwrap_or(-1),
+                                wire(RS_SHEETS[*sh as usize]), wire("Sheet1"), wire("Data"), wire("Aux"), env_before.len(),
+                                env_before.iter().map(|(n, s, f)| format!("{} {} {}", wire(n), s.map(|x| x as i64).unwrap_or(-1), wire(f))).collect::<Vec<_>>().join(" "),
+                                tokens(&before_texts[i], true, en_l, en_g).join(" "));
+                            if self.seen.insert(line.clone()) { self.cs.case(&line, &tokens(&after_texts[i], true, en_l, en_g).join(" ")); }
+                        }
+                        if !ok_texts {
+                            let d: Vec<String> = RS_CELLS.iter().enumerate().filter(|(i, _)| after_texts[*i] != before_texts[*i]).map(|(i, c)| format!("{}!H{} {:?} -> {:?}", RS_SHEETS[c.0 as usize], c.1, before_texts[i], after_texts[i])).collect();
+                            self.or.fail("rescope_rewrites_wrong_formulas", replay.clone(), format!("update_defined_name({target}@{tscope:?} -> {new_name}@{new_scope:?}): rewritten formulas {d:?}; expected exactly those that resolved to the old (name, scope){}", if name_changed { "" } else { " — none, the name is kept" }));
+                            continue;
+                        }
+                        // ---- the workbook after the update = the workbook built directly in the end state (names, texts, values)
+                        let end_names: Vec<(String, Option<u32>, String)> = base_names.iter().map(|(n, s, f)| if n == target && *s == tscope { (new_name.to_string(), new_scope, fml.clone()) } else { (n.clone(), *s, f.clone()) }).collect();
+                        if let Some(direct) = rs_build(&end_names, &exp_cells) {
+                            self.or.checked += 2;
+                            let mut a = names_view(&m); let mut b2 = names_view(&direct); a.sort(); b2.sort();
+                            if a != b2 { self.or.fail("rescope_names_differ", replay.clone(), format!("names after the update {a:?}, expected {b2:?}")); continue; }
+                            let (va, vb) = (rs_values(&m), rs_values(&direct));
+                            if va != vb {
+                                let d: Vec<String> = RS_CELLS.iter().enumerate().filter(|(i, _)| va[*i] != vb[*i]).take(3).map(|(i, c)| format!("{}!H{} {}: {} vs built directly {}", RS_SHEETS[c.0 as usize], c.1, after_texts[i], va[i], vb[i])).collect();
+                                self.or.fail("rescope_values_differ_from_direct_build", replay.clone(), format!("{d:?}"));
+                            }
+                        }
+                    }
+                }
+            }
+        }
+    }
+}
+/// replaces the identifier `old` (whole word, any case) by `new`
+fn replace_ident(text: &str, old: &str, new: &str) -> String {
+    let (lt, lo) = (text.to_lowercase(), old.to_lowercase());
+    let mut out = String::new();
+    let mut i = 0;
+    let bytes = lt.as_bytes();
+    let is_id = |c: u8| c.is_ascii_alphanumeric() || c == b'_' || c == b'.';
+    while i < text.len() {
+        if lt[i..].starts_with(&lo) && (i == 0 || !is_id(bytes[i - 1])) && (i + lo.len() >= text.len() || !is_id(bytes[i + lo.len()])) {
+            out.push_str(new); i += lo.len();
+        } else { out.push(text.as_bytes()[i] as char); i += 1; }
+    }
+    out
+}
+
 /// the dump of a DefinedNameKind is "D <name> <scope> <formula>": blank the formula field
 fn strip_defname_formula(d: &str) -> String {
     let t: Vec<&str> = d.split(' ').collect();
@@ -343,6 +459,7 @@ fn main() {
         else { let variant = (rng.below(6) + (li + ci + k) as u64) % 6; run.scenario(li, ci, *op, variant); }
     } } }
     for k in 0..(if a.thorough { 400 } else { 30 }) { run.pool_tie(&mut rng, k); }
+    run.rescope_product();
     let Run { cs, or, dist, samples, distinct, .. } = run;
     cs.finish(json!({
         "oracle_checked": or.checked, "oracle_failures": or.failures, "oracle_failures_per_class": or.per_class,
